@@ -134,7 +134,29 @@ func (c *TermCtx) mk(t *Term) *Term {
 }
 
 // urange returns conservative unsigned bounds of a bit-vector term.
-func urange(t *Term, depth int) (uint64, uint64) {
+func urange(t *Term, depth int) (uint64, uint64) { return urangeB(t, depth, nil) }
+
+// boundsLookup supplies externally known bounds of a term (path facts).
+type boundsLookup func(t *Term) (lo, hi uint64, ok bool)
+
+// urangeB is urange refined by externally known bounds.
+func urangeB(t *Term, depth int, look boundsLookup) (uint64, uint64) {
+	lo, hi := urangeS(t, depth, look)
+	if look != nil && t.Op != OConst {
+		if l, h, ok := look(t); ok {
+			if l > lo {
+				lo = l
+			}
+			if h < hi {
+				hi = h
+			}
+		}
+	}
+	return lo, hi
+}
+
+func urangeS(t *Term, depth int, look boundsLookup) (uint64, uint64) {
+	urange := func(t *Term, depth int) (uint64, uint64) { return urangeB(t, depth, look) }
 	m := mask(t.W)
 	if t.W == 0 {
 		return 0, 1
@@ -881,6 +903,10 @@ func (c *TermCtx) Extract(a *Term, lo uint8, w uint8) *Term {
 	if a.Op == OZext && lo >= a.A[0].W {
 		return c.BV(0, w)
 	}
+	if a.Op == OLshr && a.A[1].IsConst() && a.A[1].K < uint64(a.W) && uint64(lo)+uint64(w)+a.A[1].K <= uint64(a.W) {
+		// the bits of a right shift by a constant are bits of the operand
+		return c.Extract(a.A[0], lo+uint8(a.A[1].K), w)
+	}
 	if a.Op == OConcat {
 		hi, lw := a.A[0], a.A[1]
 		if lo+w <= lw.W {
@@ -899,6 +925,13 @@ func (c *TermCtx) Concat(hi, lo *Term) *Term {
 	}
 	if hi.IsConst() && hi.K == 0 {
 		return c.Zext(lo, hi.W+lo.W)
+	}
+	if hi.Op == OExtract && lo.Op == OExtract && hi.A[0] == lo.A[0] && hi.K == lo.K+uint64(lo.W) {
+		// adjacent slices of the same term
+		return c.Extract(hi.A[0], uint8(lo.K), hi.W+lo.W)
+	}
+	if lo.Op == OConcat && hi.Op == OExtract && lo.A[0].Op == OExtract && hi.A[0] == lo.A[0].A[0] && hi.K == lo.A[0].K+uint64(lo.A[0].W) {
+		return c.Concat(c.Extract(hi.A[0], uint8(lo.A[0].K), hi.W+lo.A[0].W), lo.A[1])
 	}
 	return c.mk(&Term{Op: OConcat, W: hi.W + lo.W, A: []*Term{hi, lo}})
 }
